@@ -120,7 +120,7 @@ Lemma coef_pmul_cons_r : forall P b Q i,
   coef (pmul P (b :: Q)) i = b * coef P i + match i with 0 => O_ | S j => coef (pmul P Q) j end.
 Proof.
   induction P as [|a P IH]; intros b Q i.
-  - cbn [pmul]. rewrite !coef_nil. destruct i; cbv iota; ring.
+  - cbn [pmul]. rewrite !coef_nil. destruct i; cbv iota; rewrite ?coef_nil; ring.
   - rewrite coef_pmul_cons. destruct i as [|i].
     + rewrite !coef_cons_0. ring.
     + rewrite IH, !coef_cons_S, coef_pmul_cons. destruct i; cbv iota; ring.
@@ -160,7 +160,7 @@ Proof.
   induction P as [|a P IH]; intros Q R i.
   - reflexivity.
   - cbn [pmul]. rewrite (pmul_distr_l _ _ R i), !coef_add, coef_pscale, pmul_pscale_l, pmul_shift_l.
-    destruct i; cbv iota. reflexivity. rewrite IH. reflexivity.
+    destruct i; cbv iota. reflexivity. rewrite coef_cons_S, (IH Q R i). reflexivity.
 Qed.
 Lemma pmul_1_l : forall P, peq (pmul [I_] P) P.
 Proof. intros P i. rewrite coef_pmul_cons. destruct i; cbv iota; cbn [pmul]; rewrite ?coef_nil; ring. Qed.
